@@ -1,4 +1,31 @@
 """Operand universe shared by the C07 harness and its implementation runner."""
+import dataclasses
+
+
+@dataclasses.dataclass
+class Point:
+    """what a student function of a dataclass-based course returns"""
+    x: int
+    y: float
+
+
+class Dog:
+    """A dog that barks loudly."""
+    species = "Canis familiaris"
+
+    def __init__(self, name):
+        self.name = name
+
+    def __repr__(self):
+        return 'Dog(%r)' % self.name
+
+    def __eq__(self, other):
+        return isinstance(other, Dog) and other.name == self.name
+
+    def __hash__(self):
+        return hash(self.name)
+
+
 VALUES = [0, 1, 5, -3, True, False, 2.5, 5.0, 5.0005, 5.002, 4.9995, float('nan'), 'abc', 'ABC', 'a,b.c!', 'abc ', '', 'b', [1, 2], [2, 1], [], [1, [2, 3]],
           (1, 2), (), {'a': 1}, {'a': 1.0004}, {1, 2}, {2}, set(), None, [1.0, 2.0004], 'xyz', 3, {'k': 'abc'}, {'k': 'ABC'}, {'k': 1.05}, {'k': 1.0}, [{'k': 'Abc'}], [{'k': 'abc'}],
           # equal only within the tolerance AND built in a different key order; same keys with swapped values
@@ -9,7 +36,15 @@ VALUES = [0, 1, 5, -3, True, False, 2.5, 5.0, 5.0005, 5.002, 4.9995, float('nan'
           {1.0}, {1.3}, {1.0004}, {1.0, 5.0}, {5.0004, 1.0004}, frozenset({1.0}), frozenset({1.3}), [{1.0}], [{1.3}], {'s': {1.0}}, {'s': {1.3}},
           # every element of the first has a partner within the tolerance in the second, but not the other way round
           {0.0, 0.0005}, {0.0004, 0.002}, frozenset({0.0, 0.0005}), frozenset({0.0004, 0.002}), [{0.0, 0.0005}], [{0.0004, 0.002}],
-          {'k': {0.0, 0.0005}}, {'k': {0.0004, 0.002}}]
+          {'k': {0.0, 0.0005}}, {'k': {0.0004, 0.002}},
+          # bytes: text-like, but never equal to a str
+          # dicts whose keys agree only under the string normalisation / the tolerance
+          {'A': 1}, {1.0: 'x'}, {1.0004: 'x'}, [{'A': 1}],
+          # dataclass instances: equal, different in one field, different only within the tolerance (== decides)
+          Point(1, 2.0), Point(1, 3.0), Point(1, 2.0004), [Point(1, 2.0)], [Point(1, 3.0)],
+          # objects of an ordinary class with a docstring and a string constant
+          Dog('rex'), Dog('tom'), [Dog('rex')],
+          b'abc', b'ABC', b'a,b.c!', b'', [b'abc'], {'k': b'ABC'}, (b'abc', 'abc')]
 # pairs that are always run in BOTH argument orders (also in the quick tier)
 BOTH_ORDERS = [({0.0, 0.0005}, {0.0004, 0.002}), (frozenset({0.0, 0.0005}), frozenset({0.0004, 0.002})), ([{0.0, 0.0005}], [{0.0004, 0.002}]),
                ({'k': {0.0, 0.0005}}, {'k': {0.0004, 0.002}}), ({1.0, 5.0}, {5.0004, 1.0004}), ({'a': 1.0, 'b': 2.0}, {'b': 2.0004, 'a': 1.0004})]
